@@ -88,7 +88,12 @@ def check_doc(acc, src, items, only=None):
             fulls.add('\\begin{%s}' % g['n'][1])
             fulls.add('\\begin{%s}' % g['n'][1] + ''.join(gram.text_of(a) for a in g['n'][2]))
     fulls.add('\\%s{%s}' % (ABSENT[0], 'q'))
+    # near misses: every full expression with its last character cut off matches nothing (unless it spells another node)
+    fulls |= {f[:-1] for f in fulls if len(f) > 3 and ('{' in f[:-1] or '[' in f[:-1])}
     queries += [('full', f) for f in sorted(fulls)]
+    # the parser's own pseudo-names for $..$ and $$..$$ regions: results must at least be sound (no region of another kind)
+    if any(g['n'][0] == 'M' for g in top):
+        queries += [('mathname', '$'), ('mathname', '$$')]
     nq = 0
     for root, rkey, sub in roots:
         for qk, q in queries:
@@ -104,7 +109,11 @@ def check_doc(acc, src, items, only=None):
                 acc.violation('search-raises', case, 'a list', egram.exc_repr(e), size)
                 return
             gotkeys = collections.Counter(key_of(x) for x in got)
-            if qk in ('name', 'list'):
+            if qk == 'mathname':
+                ok = {(g['s'], gram.text_of(g['n'])) for g in sub if g['n'][0] == 'M' and g['n'][1] == q}
+                bad = bool(set(gotkeys) - ok)
+                wantrep = {'subset of': sorted(ok)}
+            elif qk in ('name', 'list'):
                 qs = [q] if qk == 'name' else q
                 want = collections.Counter((g['s'], gram.text_of(g['n'])) for g in sub
                                            if g['n'][0] in ('C', 'E') and g['n'][1] in qs)
